@@ -32,7 +32,7 @@ def generate(tier, rng):
     cfg = G.REQ_CFGS["srv"]
     rcfg = G.RESP_CFGS["cli"]
     # --- requests
-    for i in range(300 if quick else 8000):
+    for i in range(1500 if quick else 8000):
         use_id = rng.chance(1, 2)
         mid = rng.below(8)
         method = rng.bytes(rng.range(1, 8), G.UPPER)
@@ -66,7 +66,7 @@ def generate(tier, rng):
                            "body": body, "tags": ["req"]}))
         n += 1
     # --- responses (fixed length)
-    for i in range(300 if quick else 8000):
+    for i in range(1500 if quick else 8000):
         st = rng.choice([200, 201, 404, 500, 301, 299, 599, 999, 65534])
         custom = rng.chance(1, 3)
         reason = rng.bytes(rng.range(1, 12), G.VALCH + b" ").strip() if custom else None
@@ -89,7 +89,7 @@ def generate(tier, rng):
                           {"kind": "resp", "status": st, "reason": reason, "ids": ids, "body": body, "tags": ["resp"]}))
         n += 1
     # --- chunked exchange with extension and trailers, through both receivers
-    for i in range(200 if quick else 5000):
+    for i in range(1000 if quick else 5000):
         chunks = [(rng.bytes(rng.choice([1, 2, 15, 16, 17, 255, 256, 4095, 4096])), rng.bytes(rng.range(0, 6), G.VALCH) if rng.chance(1, 2) else b"")
                   for _ in range(rng.range(0, 3))]
         ext = rng.bytes(rng.range(0, 5), G.VALCH) if rng.chance(1, 2) else b""
